@@ -1173,8 +1173,11 @@ DLLIMPORT int cfg_opt_setmulti(cfg_t *cfg, cfg_opt_t *opt, unsigned int nvalues,
 		if (cfg_setopt(cfg, opt, values[i]))
 			continue;
 
-		/* ouch, revert */
+		/* ouch, revert: release the new values, keep the annotation */
+		old.comment = opt->comment;
+		opt->comment = NULL;
 		cfg_free_value(opt);
+		opt->comment = old.comment;
 		opt->nvalues = old.nvalues;
 		opt->values = old.values;
 		opt->flags &= ~(CFGF_RESET | CFGF_MODIFIED);
@@ -1183,6 +1186,7 @@ DLLIMPORT int cfg_opt_setmulti(cfg_t *cfg, cfg_opt_t *opt, unsigned int nvalues,
 		return CFG_FAIL;
 	}
 
+	old.comment = NULL;	/* the annotation stays with the option */
 	cfg_free_value(&old);
 	opt->flags |= CFGF_MODIFIED;
 
